@@ -24,6 +24,9 @@ EXPLANATION = (
     "Not decided: accuracy within "
     "`error`, isometry invariance as a numeric fact."
 )
+TECHNIQUE = (
+    "static analysis (no execution): role-based structural rules for additivity/fractions/point(t); closed forms as exact canonical forms; collinear fallback by partial evaluation; NNF of the subdivision stopping test; cache-coherence fixed point over the call graph"
+)
 ASSUMPTIONS = [
     "Mutation of a segment's points by the caller (outside Path/Subpath methods) cannot be seen by the path and is out of scope.",
     "Numerical accuracy of subdivision/integration is not decided.",
